@@ -74,7 +74,10 @@ impl Bt {
 type Obs = Vec<Vec<(u64, Vec<Rec>)>>;
 
 fn drain(res: &PredictionBatchResult) -> Vec<(u64, Vec<Rec>)> {
-    (0..res.batch_size()).map(|_| res.get()).map(|(s, v)| (s, v.iter().map(Rec::from).collect())).collect()
+    let out: Vec<(u64, Vec<Rec>)> = (0..res.batch_size()).map(|_| res.get()).map(|(s, v)| (s, v.iter().map(Rec::from).collect())).collect();
+    // one result per scene: nothing is left on the handle once batch_size() results were taken
+    assert!(!res.ready(), "the result handle still reports ready() after batch_size() = {} results were retrieved", res.batch_size());
+    out
 }
 
 fn run(cfg: &TrkCfg, bs: &[Batch], discipline: usize) -> Obs {
